@@ -16,7 +16,7 @@ spec:      spec/PackageFile.tla       (1) character level: Classify(runs, nl) = 
                                       lines from (class and token spans come from the specification);
                                       TSpec: recorded executions, prefix by prefix, against the automaton
 model checking:
-           lines: EVERY line of <= 5 characters (thorough: 6; 7 without emission) over the seven classes,
+           lines: EVERY line of <= 5 characters (thorough: 6) over the seven classes,
                with and without newline: EShape (declarative reading of the result character by
                character), ERunAgrees (merging adjacent runs changes nothing: the classification only
                adds lengths), EPad (blanks appended / inserted after the colon / before a continuation).
@@ -111,7 +111,7 @@ EXTRA = dict(
     technique=(
         "TLA+ specs PackageFile (character-run classifier for re_field / re_continuation / the blank test; reader "
         "automaton with one action per branch of __iter__; grammar WF and inverse Render), PackageFileCalls (live "
-        "readers, lists handed to the caller) and TracePackageFile, model-checked by TLC: every line of <= 5-7 "
+        "readers, lists handed to the caller) and TracePackageFile, model-checked by TLC: every line of <= 5-6 "
         "characters over 7 classes, every file of <= 5-6 lines over 6 line classes, large uniform files, the closed "
         "LTS of calls; five spec-level negative controls. Binding: all TLC cases replayed into the real reader through "
         "twelve kinds of file object with caller-side mutation and kept-alive results; the run templates every "
@@ -931,6 +931,19 @@ def corrupted(traces):
     return out
 
 
+class _Sub:
+    """the context with a scratch directory of its own (core.validate_traces names its file by the number of
+    TLC runs so far: two validations side by side must not share the directory)"""
+
+    def __init__(self, ctx, tag):
+        self._ctx = ctx
+        self.work = os.path.join(ctx.work, tag)
+        os.makedirs(self.work, exist_ok=True)
+
+    def __getattr__(self, name):
+        return getattr(self._ctx, name)
+
+
 def validate(ctx, traces, with_controls=True):
     controls = STATIC_CONTROLS + corrupted(traces) if with_controls else []
     acc, _, _ = core.validate_traces(ctx, "TracePackageFile", "TracePackageFile.cfg", traces,
@@ -1171,7 +1184,7 @@ def run(ctx):
 
     # 1. design level, concurrently
     jobs = [
-        dict(name="lines", module="PackageFile", cfg=cfg_text("PackageFile_lines.cfg", MaxLen=str(maxlen)), workers=3 if quick else 2,
+        dict(name="lines", module="PackageFile", cfg=cfg_text("PackageFile_lines.cfg", MaxLen=str(maxlen)), workers=3 if quick else 4,
              tags={"CASE", "CTX"}),
         dict(name="files", module="PackageFile", cfg=cfg_text("PackageFile_files.cfg", MaxLines=str(maxlines)), workers=2,
              tags={"CASE"}),
@@ -1183,7 +1196,7 @@ def run(ctx):
     ]
     if quick:
         jobs = [j for j in jobs if j["name"] != "big2"]
-    if not quick:         # (the longest job first: 4 + 2 + 2 workers at a time)
+    if os.environ.get("VERIF_X01_LINES7"):       # 1.9e6 lines of 7 characters, no emission: 2.5 CPU-minutes, off by default
         jobs.insert(0, dict(name="lines7", module="PackageFile", workers=4, tags=set(),
                          cfg=only_inv(cfg_text("PackageFile_lines.cfg", MaxLen="7", Emit="FALSE"), ["INVARIANT EShape", "INVARIANT ERunAgrees", "INVARIANT EPad"])))
     negs = []
@@ -1206,13 +1219,9 @@ def run(ctx):
         return core.run_tlc(j["module"], j["cfg"], ctx.work, workers=j["workers"], want_tags=j["tags"], timeout=timeout,
                             java_opts=jo)
 
-    with ThreadPoolExecutor(max_workers=3) as ex:
-        futs = [ex.submit(one, j) for j in jobs]
-        f_lib = ex.submit(classify_library, ctx, tpls)
-        results = [f.result() for f in futs]
-        lib = f_lib.result()
     res = {}
-    for j, r in zip(jobs, results):
+
+    def account(j, r):
         ctx.tlc_runs.append({"module": j["module"], "config": j["name"], "generated": r.generated, "distinct": r.distinct,
                              "depth": r.depth, "wall_s": round(r.wall, 2), "violated": r.violated})
         if j.get("expect"):
@@ -1225,6 +1234,19 @@ def run(ctx):
             ctx.states += r.distinct
             ctx.transitions += r.generated
         res[j["name"]] = r
+
+    # (lines7 emits nothing: it keeps running beside the replay legs and is collected at the end)
+    late = [j for j in jobs if j["name"] == "lines7"]
+    jobs = [j for j in jobs if j["name"] != "lines7"]
+    late_ex = ThreadPoolExecutor(max_workers=1)
+    late_futs = [late_ex.submit(one, j) for j in late]
+    with ThreadPoolExecutor(max_workers=3 if quick else 2) as ex:
+        futs = [ex.submit(one, j) for j in jobs]
+        f_lib = ex.submit(classify_library, ctx, tpls)
+        results = [f.result() for f in futs]
+        lib = f_lib.result()
+    for j, r in zip(jobs, results):
+        account(j, r)
     tm["tlc_design"] = round(time.time() - t_, 1)
     t_ = time.time()
 
@@ -1252,10 +1274,10 @@ def run(ctx):
     stats = {}
 
     # 2. (a1) every line, (a2) every file, the large files
-    nv = replay_lines(ctx, lcases * (1 if quick else 2), table, quick, stats)
+    nv = replay_lines(ctx, lcases, table, quick, stats)
     tm["replay_lines"] = round(time.time() - t_, 1)
     t_ = time.time()
-    nv += replay_files(ctx, fcases * (2 if quick else 4), lib, quick, stats)       # (every repetition draws new templates / forms)
+    nv += replay_files(ctx, fcases * 2, lib, quick, stats)       # (every repetition draws new templates / forms)
     tm["replay_files"] = round(time.time() - t_, 1)
     t_ = time.time()
     nv += replay_files(ctx, bcases, lib, quick, stats, big=True)
@@ -1310,7 +1332,7 @@ def run(ctx):
     t_ = time.time()
 
     # 4. (b) recorded executions, prefix by prefix, validated by TLC
-    ndocs = 260 if quick else 4000
+    ndocs = 260 if quick else 2500
     picker = Picker(lib, every=9, offset=ctx.seed * 3, huge=3 if quick else 8)
     bigdims = BIG_TRACES[:7] if quick else BIG_TRACES
     bigpos = {(j + 1) * (ndocs // (len(bigdims) + 1)): d for j, d in enumerate(bigdims)}
@@ -1333,7 +1355,17 @@ def run(ctx):
                           "file %s [%s]: %s" % (brief(texts, 500), form, complaints[0]))
     tm["record"] = round(time.time() - t_, 1)
     t_ = time.time()
-    rejected, info = validate(ctx, traces)
+    if quick:
+        rejected, info = validate(ctx, traces)
+    else:               # two TLC runs side by side
+        half = len(traces) // 2
+        with ThreadPoolExecutor(max_workers=2) as ex:
+            fa = ex.submit(validate, _Sub(ctx, "va"), traces[:half])
+            fb = ex.submit(validate, _Sub(ctx, "vb"), traces[half:])
+            (ra, ia), (rb, ib) = fa.result(), fb.result()
+        rejected = ra + [i + half for i in rb]
+        info = dict(ia)
+        info.update({i + half: v for i, v in ib.items()})
     tm["validate"] = round(time.time() - t_, 1)
     ctx.traces += len(traces)
     ctx.evaluations += sum(len(t["lines"]) for t in traces)
@@ -1360,6 +1392,11 @@ def run(ctx):
     stats["template_lengths"] = sorted(stats.get("template_lengths", set()) | picker.used | plain.used)
     ctx.extra["replay"] = dict(sorted(stats.items()))
     ctx.extra["unspecified_probes"] = probe_unspecified(ctx)
+    t_ = time.time()
+    for j, f in zip(late, late_futs):
+        account(j, f.result())
+    late_ex.shutdown()
+    tm["tlc_late"] = round(time.time() - t_, 1)
     known_filter(ctx)
 
 
